@@ -20,7 +20,7 @@ def search(ctx, res, problems):
 
 PROP = {
     "streams": streams, "search": search,
-    "rule": "real creators (poly / poly_p constructors, set, operator=) run with nfl::fastrandombytes replaced at link time by a scripted tape: all 2^16 words for uniform and for 19 (B,A) pairs on the 16-bit limb, all 256 bytes x all 256 rho, boundary words (0,1,p-1,p,p+1,mask,mask+1,2^w-1,…) on 32/64 bit, B in powers of two and neighbours up to 2^20 (2^61 thorough) and 2^47..2^61 on uint64, A in {1,2,3,1024}, all (n<=8,h) index tuples with rejection-zone words, fixed weight / uniform / bounded / ternary at the largest degrees of every limb (512, 32768, 2^17; 2^20 thorough) and uniform with every row of the 32/64-bit tables as a modulus, real FastGaussianNoise on the same tape, scalars/lists/mpz; every line: model equality + executable spec (canonical, one signed integer in the support for all moduli) on the implementation's output; the mask of set(uniform) of all 1293 rows extracted bit by bit from the real code and compared with the model (Nat.log2) and with an integer bit length; excluded points (A*(B-1)>=p, A=0, B=0, |v|*amp>=p) are run and reported in class_histogram, not judged; distinct = distinct op lines",
+    "rule": "real creators (poly / poly_p constructors, set, operator=) run with nfl::fastrandombytes replaced at link time by a scripted tape: all 2^16 words for uniform and for 19 (B,A) pairs on the 16-bit limb, all 256 bytes x all 256 rho, boundary words (0,1,p-1,p,p+1,mask,mask+1,2^w-1,…) on 32/64 bit, B in powers of two and neighbours up to 2^20 (2^61 thorough) and 2^47..2^61 on uint64, A in {1,2,3,1024}, all (n<=8,h) index tuples with rejection-zone words, fixed weight / uniform / bounded / ternary at the largest degrees of every limb (512, 32768, 2^17; 2^20 thorough), fixed weight with the extreme weights (h = n, n-1; more classes at 64..512 and in the thorough tier) at every degree class 64..2^17, bounds at/beyond the limb width (must throw), ternary rho = 0 / 255 at the largest degrees and uniform with every row of the 32/64-bit tables as a modulus, real FastGaussianNoise on the same tape, scalars/lists/mpz; every line: model equality + executable spec (canonical, one signed integer in the support for all moduli) on the implementation's output; the mask of set(uniform) of all 1293 rows extracted bit by bit from the real code and compared with the model (Nat.log2) and with an integer bit length; excluded points (A*(B-1)>=p, A=0, B=0, |v|*amp>=p) are run and reported in class_histogram, not judged; distinct = distinct op lines",
     "trusted_base": COMMON_TB + [
         "floor(log2((double)p)) of set(uniform) is modelled by Nat.log2: validated on all 1293 rows by the umask stream on every run, not proved",
         "the harness's replacement of nfl::fastrandombytes serves the scripted bytes in call order and records them (the recorded requests, not the script, are what the model receives)",
